@@ -31,9 +31,18 @@ import (
 
 func n(v uint64) string { return vgen.N(v) }
 
+// bytesT prints a byte string compactly: (Hdr.B len 0x...) instead of a list literal
+// (coqc spends most of its time parsing long list literals).
+func bytesT(b []byte) string {
+	if len(b) <= 2 {
+		return vgen.Bytes(b)
+	}
+	return fmt.Sprintf("(Hdr.B %d 0x%x)", len(b), b)
+}
+
 func hopT(h path.HopField) string {
 	return vgen.App("HdrPath.mkHop", vgen.B(h.IngressRouterAlert), vgen.B(h.EgressRouterAlert),
-		n(uint64(h.ExpTime)), n(uint64(h.ConsIngress)), n(uint64(h.ConsEgress)), vgen.Bytes(h.Mac[:]))
+		n(uint64(h.ExpTime)), n(uint64(h.ConsIngress)), n(uint64(h.ConsEgress)), bytesT(h.Mac[:]))
 }
 
 func infoT(i path.InfoField) string {
@@ -50,7 +59,7 @@ func baseT(b scion.Base) string {
 	return vgen.App("HdrPath.mkBase", metaT(b.PathMeta), n(uint64(b.NumINF)), n(uint64(b.NumHops)))
 }
 
-func rawT(r *scion.Raw) string { return vgen.App("HdrPath.mkRaw", baseT(r.Base), vgen.Bytes(r.Raw)) }
+func rawT(r *scion.Raw) string { return vgen.App("HdrPath.mkRaw", baseT(r.Base), bytesT(r.Raw)) }
 
 func decT(d *scion.Decoded) string {
 	return vgen.App("HdrPath.mkDec", baseT(d.Base), vgen.ListOf(d.InfoFields, infoT),
@@ -63,7 +72,7 @@ func onehopT(o *onehop.Path) string {
 
 func epicT(e *epic.Path) string {
 	return vgen.App("HdrPath.mkEpic", n(uint64(e.PktID.Timestamp)), n(uint64(e.PktID.Counter)),
-		vgen.Bytes(e.PHVF), vgen.Bytes(e.LHVF), rawT(e.ScionPath))
+		bytesT(e.PHVF), bytesT(e.LHVF), rawT(e.ScionPath))
 }
 
 func pathT(p path.Path) string {
@@ -86,7 +95,7 @@ func scionT(s *slayers.SCION) string {
 	return vgen.App("HdrScion.mkScion", n(uint64(s.Version)), n(uint64(s.TrafficClass)),
 		n(uint64(s.FlowID)), n(uint64(s.NextHdr)), n(uint64(s.HdrLen)), n(uint64(s.PayloadLen)),
 		n(uint64(s.PathType)), n(uint64(s.DstAddrType)), n(uint64(s.SrcAddrType)),
-		n(uint64(s.DstIA)), n(uint64(s.SrcIA)), vgen.Bytes(s.RawDstAddr), vgen.Bytes(s.RawSrcAddr),
+		n(uint64(s.DstIA)), n(uint64(s.SrcIA)), bytesT(s.RawDstAddr), bytesT(s.RawSrcAddr),
 		pathT(s.Path))
 }
 
@@ -98,7 +107,7 @@ type tlv struct {
 }
 
 func optT(o tlv) string {
-	return vgen.App("HdrExt.mkOpt", n(uint64(o.Type)), n(uint64(o.DataLen)), vgen.Bytes(o.Data),
+	return vgen.App("HdrExt.mkOpt", n(uint64(o.Type)), n(uint64(o.DataLen)), bytesT(o.Data),
 		n(uint64(o.Align[0])), n(uint64(o.Align[1])))
 }
 
@@ -144,10 +153,10 @@ func hostT(h addr.Host) string {
 		ip := h.IP()
 		if ip.Is4() {
 			b := ip.As4()
-			return vgen.App("HdrScion.HostIP4", vgen.Bytes(b[:]))
+			return vgen.App("HdrScion.HostIP4", bytesT(b[:]))
 		}
 		b := ip.As16()
-		return vgen.App("HdrScion.HostIP6", vgen.Bytes(b[:]))
+		return vgen.App("HdrScion.HostIP6", bytesT(b[:]))
 	case addr.HostTypeSVC:
 		return vgen.App("HdrScion.HostSVC", n(uint64(h.SVC())))
 	}
@@ -186,7 +195,7 @@ func term(v any) string {
 		return extT(x)
 	case *spaoV:
 		return vgen.App("Hdr.HSpao", vgen.App("HdrExt.mkSpao", n(uint64(x.SPI)), n(uint64(x.Alg)),
-			n(x.TS), vgen.Bytes(x.Auth)))
+			n(x.TS), bytesT(x.Auth)))
 	case addr.Host:
 		return vgen.App("Hdr.HAddr", hostT(x))
 	}
@@ -948,7 +957,7 @@ type runner struct {
 	maxBytes int
 }
 
-func pairT(v any, rest []byte) string { return vgen.Pair(term(v), vgen.Bytes(rest)) }
+func pairT(v any, rest []byte) string { return vgen.Pair(term(v), bytesT(rest)) }
 
 // genValue draws a header value of layer kind k.
 func (rn *runner) genValue(r *vgen.Rand, k int, fix bool, payloadLen int) any {
@@ -1032,7 +1041,7 @@ func (rn *runner) encCase(r *vgen.Rand, k int) {
 	}
 	implT, redecT := "None", "None"
 	if err == nil {
-		implT = vgen.Opt(vgen.Bytes(hb), true)
+		implT = vgen.Opt(bytesT(hb), true)
 		if derr == nil {
 			redecT = vgen.Opt(pairT(redec, rest), true)
 		}
@@ -1040,7 +1049,7 @@ func (rn *runner) encCase(r *vgen.Rand, k int) {
 	run.Tally(fmt.Sprintf("enc:%s:fix=%v:ok=%v:redec=%v", lay, fix, err == nil, err == nil && derr == nil))
 	desc["impl"] = fmt.Sprintf("%x", hb)
 	desc["err"] = fmt.Sprint(err)
-	run.Add("enc-"+lay, vgen.App("Hdr.CEnc", vgen.B(fix), before, vgen.Bytes(payload), implT, redecT),
+	run.Add("enc-"+lay, vgen.App("Hdr.CEnc", vgen.B(fix), before, bytesT(payload), implT, redecT),
 		before+fmt.Sprint(fix, payload), err == nil && derr == nil, desc)
 }
 
@@ -1050,6 +1059,15 @@ func (rn *runner) decCase(lay string, id int, bs []byte, how string, mutatedLen 
 	if !run.Want() {
 		run.Skip()
 		return
+	}
+	if lay == "Hdr.LAddr" {
+		// ParseAddr is only ever called with len(raw) == addrType.Length() (that is what
+		// DecodeAddrHdr produces); with a shorter slice raw[:2] depends on the slice's capacity.
+		if len(bs) == 0 {
+			bs = []byte{0}
+		}
+		want := 1 + 4*(1+int(bs[0]&3))
+		bs = append(append([]byte(nil), bs...), make([]byte, 16)...)[:want]
 	}
 	var v any
 	var rest, rs []byte
@@ -1066,7 +1084,7 @@ func (rn *runner) decCase(lay string, id int, bs []byte, how string, mutatedLen 
 	desc := map[string]any{"dir": "dec", "layer": lay, "id": id, "how": how, "bytes": fmt.Sprintf("%x", bs)}
 	lt := layTerm(lay, id)
 	if pan {
-		run.Violate(run.Add("dec-"+lay, vgen.App("Hdr.CDec", lt, vgen.Bytes(bs), "None", "None"),
+		run.Violate(run.Add("dec-"+lay, vgen.App("Hdr.CDec", lt, bytesT(bs), "None", "None"),
 			fmt.Sprintf("%s%x", lay, bs), false, desc), "panic in DecodeFromBytes: "+msg, desc)
 		return
 	}
@@ -1083,18 +1101,18 @@ func (rn *runner) decCase(lay string, id int, bs []byte, how string, mutatedLen 
 		restCopy := append([]byte(nil), rest...)
 		pan, msg = vgen.Recover(func() { rs, rerr = ser(v, false, restCopy) })
 		if pan {
-			run.Violate(run.Add("dec-"+lay, vgen.App("Hdr.CDec", lt, vgen.Bytes(bs), implT, "None"),
+			run.Violate(run.Add("dec-"+lay, vgen.App("Hdr.CDec", lt, bytesT(bs), implT, "None"),
 				fmt.Sprintf("%s%x", lay, bs), false, desc), "panic when serializing a decoded value: "+msg, desc)
 			return
 		}
 		if rerr == nil {
-			reserT = vgen.Opt(vgen.Bytes(rs), true)
+			reserT = vgen.Opt(bytesT(rs), true)
 		}
 		desc["decoded"] = term(v)
 		desc["reser"] = fmt.Sprintf("%x", rs)
 	}
 	run.Tally(fmt.Sprintf("dec:%s:%s:accept=%v", lay, how, err == nil))
-	run.Add("dec-"+lay, vgen.App("Hdr.CDec", lt, vgen.Bytes(bs), implT, reserT),
+	run.Add("dec-"+lay, vgen.App("Hdr.CDec", lt, bytesT(bs), implT, reserT),
 		fmt.Sprintf("%s/%d/%x", lay, id, bs), err == nil || mutatedLen, desc, tags...)
 }
 
@@ -1175,6 +1193,16 @@ func main() {
 			hb = r.Bytes(r.Intn(30)) // not serializable: use random bytes instead
 		}
 		bs := append(hb, payload...)
+		if _, ok := v.(*slayers.SCION); ok && err == nil && len(hb) >= 12 && r.Chance(1, 4) {
+			// HdrLen announces k more lines than address header + path occupy
+			if k := r.Range(1, 3); int(hb[5])+k <= 255 {
+				nb := append([]byte(nil), hb...)
+				nb[5] += byte(k)
+				nb = append(append(nb, r.Bytes(4*k)...), payload...)
+				rn.decCase(lay, id, nb, "slack", true)
+				continue
+			}
+		}
 		mode := r.Intn(10)
 		switch {
 		case mode < 3: // as serialized
